@@ -451,3 +451,22 @@ Proof.
     destruct (apply_action k m t0 x); [apply IH|discriminate]. }
   unfold transaction. rewrite (G _ _ _ B). cbn [body]. rewrite R. destruct e; cbn; split; (reflexivity || discriminate).
 Qed.
+
+(* ---------------------------------------------------------------- C04: what a state report carries *)
+(* the report of a committed state transaction = its item list with the committed MdibVersion;
+   it lists exactly the states the commit changed, each once, with the committed values *)
+Theorem state_report_exact k m t : stx_ok k m t ->
+  let m' := commit_states m t in
+  NoDup (map fst (t_s t)) /\
+  (forall h s, In (h, s) (t_s t) -> states m' h = Some s /\ states m h <> Some s) /\
+  (forall h, states m' h <> states m h -> exists s, In (h, s) (t_s t)) /\
+  (t_s t <> [] -> ver m' = ver m + 1).
+Proof.
+  intros Hok. cbv zeta. destruct (commit_states_pointwise k m t Hok) as (S & _ & _ & _).
+  split; [apply (sx_nodup _ _ _ Hok)|]. split; [|split].
+  - intros h s Hi. rewrite S, (alist_get_in _ _ _ (sx_nodup _ _ _ Hok) Hi). split; [reflexivity|].
+    destruct (sx_items _ _ _ Hok h s Hi) as (o & -> & E & _). intros [= ->]. lia.
+  - intros h Hne. rewrite S in Hne. destruct (alist_get (t_s t) h) as [s|] eqn:G; [|contradiction].
+    exists s. now apply alist_get_some_in.
+  - intros Hne. rewrite commit_states_ver. destruct (t_s t); [contradiction|reflexivity].
+Qed.
